@@ -1176,7 +1176,10 @@ impl World for WorldC {
                 voters.push(d);
             }
             for i in 0..bulk_members.min(40) {
-                voters.push(json!({"addr": addr_of(&format!("bulk{}", i)), "weight": 0}));
+                // C20 needs ballots by the dozen: there the bulk voters carry weight
+                let w = if prop == "C20" { 1u64 } else { 0 };
+                tot = tot.saturating_add(w);
+                voters.push(json!({"addr": addr_of(&format!("bulk{}", i)), "weight": w}));
             }
             Some(json!({"voters": voters, "threshold": gen_threshold(rng, tot, fine), "max_voting_period": gen_duration(rng, spb)}))
         } else {
@@ -1480,6 +1483,44 @@ impl World for WorldC {
         }
         // setup is over: the simulated history starts in a fresh block
         w.apply_inner(&Step::Block { dh: 1, dt: cfg.spb, dn: 0 }, &mut pend);
+        // C20: a proposal with ballots by the dozen (vote listings need pages too) — scheduled as the first steps
+        if cfg.profile == "C20" && cfg.bulk_members > 0 {
+            for mi in 0..w.msigs.len() {
+                let m = w.msigs[mi].clone();
+                let proposer = if m.flex { w.cur_members.keys().find(|k| w.users.contains(*k)).cloned() } else { m.voters0.keys().find(|k| w.users.contains(*k)).cloned() };
+                let proposer = match proposer {
+                    Some(p) => p,
+                    None => continue,
+                };
+                let mut funds: Vec<(String, String)> = vec![];
+                if let Some(d) = &m.deposit {
+                    if let cw20::Denom::Native(dn) = &d.denom {
+                        funds = vec![(dn.clone(), d.amount.u128().to_string())];
+                    }
+                }
+                let id = m.max_id + 1;
+                w.queue.push_back(Step::Tx {
+                    sender: proposer,
+                    target: m.label.clone(),
+                    msg: json!({"propose":{"title": "mass", "description":"m", "msgs": [], "latest": null}}),
+                    funds,
+                    fault: None,
+                    script: vec![],
+                });
+                for (i, b) in w.bulk_addrs.clone().iter().take(36).enumerate() {
+                    let choice = ["abstain", "no", "yes", "veto"][i % 4];
+                    w.queue.push_back(Step::Tx {
+                        sender: b.clone(),
+                        target: m.label.clone(),
+                        msg: json!({"vote":{"proposal_id": id, "vote": choice}}),
+                        funds: vec![],
+                        fault: None,
+                        script: vec![],
+                    });
+                }
+            }
+            w.meter.hit("mass_vote_scheduled");
+        }
         w.pending = pend;
         w
     }
